@@ -32,9 +32,9 @@ PROPERTIES = {
                                         'numpy.floor/ceil are the mathematical floor/ceiling'],
                 assumptions=[A_PY, A_REAL, A_INT]),
     'C04': dict(level='proof', trusted=[A_PY, A_REAL, A_TRIG, A_NUMPY, A_UNITS,
-                                        'lemma (not machine-checked): a polygon lies in the convex hull of its vertices, hence in any box containing them'],
+                                        'polygon members lie in the box: through the lemma "a point outside the extent of the vertices has an even crossing number", proved by induction over the edges (contracts/k_kernels.py), no longer trusted'],
                 assumptions=[A_PY, A_REAL, A_TRIG, A_NUMPY, A_UNITS,
-                             'minimality of polygon boxes is proved for 3..6 vertices (concrete spine), enclosure of vertices for any number']),
+                             'polygon boxes: enclosure of the vertices and minimality (each border reached by an extreme vertex) for any number of vertices']),
     'C02': dict(level='proof', bounded=['sampled_masks'], trusted=[A_PY, A_REAL, A_TRIG, A_NUMPY, A_UNITS,
                                         A_KERNEL_GRID],
                 assumptions=[A_PY, A_REAL, A_TRIG, A_NUMPY, A_UNITS, 'compiled kernels: contract discharged from the .pyx text for centre/subpixel modes; exact mode assumed (see trusted_base)',
